@@ -101,7 +101,8 @@ struct ListWorld : World {
         if ((kind == K_QUEUE || kind == K_STACK) && api == 1) return Bytes(v.c_str()) + Bytes(1, '\0');
         return v;
     }
-    static int index_of(int a, size_t n) { return (int)(a % (int)(2 * n + 5)) - (int)(n + 2); }
+    // index relative to the current length (sequential modes); a fixed small range when several threads run, where the length is not the caller's to read
+    static int index_of(int a, size_t n, bool mt) { if (mt) return (a % 7) - 3; return (int)(a % (int)(2 * n + 5)) - (int)(n + 2); }
 
     qlist_t *base() const { return kind == K_LIST ? l : kind == K_QUEUE ? qq->list : kind == K_STACK ? qs->list : qg->list; }
 
@@ -139,7 +140,7 @@ struct ListWorld : World {
     Result sut_apply(const Op &op, Ctx &x) override {
         qlist_t *b = base();
         size_t n = b->num;
-        int idx = index_of(op.a, n);
+        int idx = index_of(op.a, n, mt);
         int api = op.d & 7;
         switch (op.k) {
         case L_ADD: {
@@ -290,7 +291,7 @@ struct ListWorld : World {
 
 Result ListModel::apply(const Op &op) {
     size_t n = q.size();
-    int idx = ListWorld::index_of(op.a, n);
+    int idx = ListWorld::index_of(op.a, n, w->mt);
     int api = op.d & 7; int kind = w->kind;
     switch (op.k) {
     case L_ADD: {
